@@ -35,7 +35,7 @@ COLORS = ("RED", "GREEN", "BLUE")
 # name, named type, list mode (0 free, 1 forced list, 2 forced nested), arg names
 POOL = (
     ("id", "ID", 0, ()),
-    ("name", "String", 0, ()),
+    ("name", "String", 0, ("pre",)),
     ("num", "Int", 0, ()),
     ("ratio", "Float", 0, ()),
     ("flag", "Boolean", 0, ()),
@@ -100,7 +100,11 @@ class SchemaSpec:
                   (None, None, "true")[i]),
             "f": ("Filter", (None, '{tag: "dt"}', '{tag: "dt", sub: {tag: "in", min: 5}}')[tape.draw(3, "df")]),
             "id": ("ID", None),
+            # default differs per implementing type (see field_sdl): interface field arguments
+            "pre": ("String", "?"),
         }
+        # Python-side names of some arguments / input fields (GraphQL-core's out_name)
+        self.out_names = bool(tape.draw(2, "out_names"))
         self.members = {}
         for tname in ("Query", "Mutation", "Subscription") + OBJECTS:
             mandatory = set()
@@ -120,13 +124,15 @@ class SchemaSpec:
             self.members[iface] = list(fs)
         self.members["U"] = []
 
-    def field_sdl(self, name):
+    def field_sdl(self, name, tname=""):
         _n, named, _mode, argnames = next(p for p in POOL if p[0] == name)
         t = self.wrap[name].format(named)
         if argnames:
             parts = []
             for a in argnames:
                 at, dflt = self.args[a]
+                if a == "pre":
+                    dflt = f'"p{tname}"' 
                 parts.append(f"{a}: {at}" + (f" = {dflt}" if dflt is not None else ""))
             return f"{name}({', '.join(parts)}): {t}"
         return f"{name}: {t}"
@@ -134,14 +140,14 @@ class SchemaSpec:
     def sdl(self):
         out = ["enum Color { RED GREEN BLUE }", FILTER_SDL]
         for iface, fs in IFACE_FIELDS.items():
-            out.append(f"interface {iface} {{ " + " ".join(self.field_sdl(f) for f in fs) + " }")
+            out.append(f"interface {iface} {{ " + " ".join(self.field_sdl(f, iface) for f in fs) + " }")
         out.append("union U = B | C | D")
         for t in OBJECTS:
             impl = IMPLEMENTS[t]
             head = f"type {t}" + (" implements " + " & ".join(impl) if impl else "")
-            out.append(head + " { " + " ".join(self.field_sdl(f) for f in self.members[t]) + " }")
+            out.append(head + " { " + " ".join(self.field_sdl(f, t) for f in self.members[t]) + " }")
         for t in ("Query", "Mutation", "Subscription"):
-            out.append(f"type {t} {{ " + " ".join(self.field_sdl(f) for f in self.members[t]) + " }")
+            out.append(f"type {t} {{ " + " ".join(self.field_sdl(f, t) for f in self.members[t]) + " }")
         return "\n".join(out)
 
 
@@ -152,7 +158,19 @@ def build_world_schema(spec):
         extra += [GraphQLDeferDirective, GraphQLStreamDirective]
     kwargs = schema.to_kwargs()
     kwargs["directives"] = tuple(kwargs["directives"]) + tuple(extra)
-    return GraphQLSchema(**kwargs)
+    schema = GraphQLSchema(**kwargs)
+    if spec.out_names:
+        for t in schema.type_map.values():
+            for f in (getattr(t, "fields", None) or {}).values():
+                for an, arg in (getattr(f, "args", None) or {}).items():
+                    if an in OUT_NAMES:
+                        arg.out_name = OUT_NAMES[an]
+        flt = schema.type_map["Filter"]
+        flt.fields["min"].out_name = "minimum"
+    return schema
+
+
+OUT_NAMES = {"xs": "xs_list", "s": "s_text", "pre": "prefix"}
 
 
 def possible_names(tname):
@@ -256,10 +274,11 @@ class DocGen:
     """Type-directed generator of validated-by-construction documents (text)."""
 
     def __init__(self, tape, spec, incremental=False, max_depth=4, budget=26,
-                 allow_abstract=True):
+                 allow_abstract=True, disabled_only=False):
         self.t = tape
         self.spec = spec
         self.incremental = incremental
+        self.disabled_only = disabled_only  # only @defer/@stream with if: false (subscriptions)
         self.max_depth = max_depth
         self.budget = budget
         self.frags = []
@@ -411,19 +430,22 @@ class DocGen:
         wrap = spec.wrap[fname]
         is_list = wrap.startswith("[")
         if (self.incremental and is_list and root_kind != "mutation"
-                and root_kind != "subscription" and t.draw(2, "stream") == 1):
+                and (root_kind != "subscription" or self.disabled_only)
+                and t.draw(2, "stream") == 1):
             ic = t.draw(4, "ic")
             sargs = [f"initialCount: {ic}"] if ic or t.draw(2, "ic0") else []
             sv = f"s{ic}"
             k = t.draw(6, "sif")
+            if self.disabled_only:
+                k = 4 if t.draw(2, "sdis") else 6
             if k == 4:
                 sargs.append("if: false")
                 sv += "f"
-            elif k == 5:
+            elif k >= 5:
                 self.nvar += 1
                 vn = f"sv{self.nvar}"
                 self.vars[vn] = ("Boolean!", None)
-                self.var_values[vn] = bool(t.draw(2, "svv"))
+                self.var_values[vn] = bool(t.draw(2, "svv")) if k == 5 else False
                 used.add(vn)
                 sargs.append(f"if: ${vn}")
                 sv += vn
@@ -485,6 +507,10 @@ class DocGen:
         args = []
         k = t.draw(8, "dif")
         active = True
+        force_false = False
+        if self.disabled_only:
+            k = 6 if t.draw(2, "ddis") else 7
+            force_false = True
         if k == 6:
             args.append("if: false")
             active = False
@@ -492,7 +518,7 @@ class DocGen:
             self.nvar += 1
             vn = f"dv{self.nvar}"
             self.vars[vn] = ("Boolean!", None)
-            val = bool(t.draw(2, "dvv"))
+            val = bool(t.draw(2, "dvv")) and not force_false
             self.var_values[vn] = val
             used.add(vn)
             args.append(f"if: ${vn}")
@@ -588,7 +614,8 @@ class DocGen:
                 self.features.add("fragment_spread")
         if not sels:
             sels.append("__typename")
-        if (self.incremental and root_kind not in ("mutation", "subscription")
+        if (self.incremental and not self.disabled_only
+                and root_kind not in ("mutation", "subscription")
                 and not ctx.get("no_defer") and t.draw(3, "echo") == 2):
             # overlap on purpose: select one of this set's own fields again inside a (new)
             # deferred fragment, so that fields end up in several defer sets at several depths
